@@ -139,6 +139,95 @@ theorem handleRecord_app (H : Crypto.Prims) (P : Prims) (L : SealLaws P) (kl : L
   · rw [heq]
     exact ⟨hcan, ⟨v, hver, hv13⟩, _, rfl, h2⟩
 
+-- ------------------------------------------------------------------ TLS ≤ 1.2: ChangeCipherSpec and the encrypted Finished
+/-- the `change_cipher_spec` flag of a direction -/
+def ccOf (s : Session.St Dec) (srv : Bool) : Bool := if srv then s.srvCC else s.cliCC
+
+/-- a ChangeCipherSpec record (type 20, never protected in the initial handshake): sets the direction's flag, exports
+    nothing but (with `-a`) the record itself, leaves decryptor, version and gate alone -/
+theorem handleRecord_ccs (O : Session.Ops Dec) (m : Bool) (s : Session.St Dec) (r : Session.Rec) (srv : Bool)
+    (ht : r.typ = some 0x14) :
+    let s' := Session.handleRecord O m s r srv
+    s'.dec = s.dec ∧ s'.ver = s.ver ∧ s'.canDecrypt = s.canDecrypt ∧ ccOf s' srv = true ∧
+    ccOf s' (!srv) = ccOf s (!srv) ∧ s'.traffic.filter (·.isApp) = s.traffic.filter (·.isApp) ∧
+    (m = false → s'.traffic = s.traffic) := by
+  simp only [Session.handleRecord, Session.handleRecordRaw, ht]
+  have h1 : ((0x14 : UInt8) = 0x16) = False := by decide
+  have h2 : ((0x14 : UInt8) = 0x17) = False := by decide
+  have h3 : ((0x14 : UInt8) = 0x15) = False := by decide
+  simp only [h1, h2, h3, if_false, if_true, Session.Out.st]
+  cases srv <;> cases m <;>
+    simp [Session.pushMeta, Session.St.push, ccOf, List.filter_append]
+
+/-- a protected handshake record (the Finished) of a direction whose ChangeCipherSpec was seen, SSL 3.0 – TLS 1.2:
+    decrypted as the sender protected it (cipher state advances in step), exported only with `-a` and never as
+    application data -/
+theorem handleRecord_hsEnc (H : Crypto.Prims) (P : Prims) (L : SealLaws P) (kl : List Keylog.Key) (cls : CipherClass)
+    (h13 : cls.is13 = false) (macLen : Nat) (ver : Bytes) (hv : ver.length = 2) (x : Snd) (s : Session.St Dec)
+    (hs : Ready cls macLen x s) (srv : Bool) (hcc : ccOf s srv = true) (body : Bytes) (f : Fresh)
+    (hok : SendOk cls macLen body f) (hq : x.c.seq < seqLimit ∧ x.s.seq < seqLimit) (m : Bool) (car : List Nat) :
+    let o := protect P L cls ver (x.get srv) 22 body f
+    let s' := Session.handleRecord (Pipeline.ops H P kl) m s ⟨o.2, car⟩ srv
+    s'.traffic.filter (·.isApp) = s.traffic.filter (·.isApp) ∧ (m = false → s'.traffic = s.traffic) ∧
+      Ready cls macLen (x.set srv o.1) s' ∧ s'.srvCC = s.srvCC ∧ s'.cliCC = s.cliCC ∧
+      (x.set srv o.1).c.seq ≤ max x.c.seq x.s.seq + 1 ∧ (x.set srv o.1).s.seq ≤ max x.c.seq x.s.seq + 1 := by
+  obtain ⟨hcan, ⟨v, hver, hv13⟩, d, hdec, hR⟩ := hs
+  obtain ⟨h1, h2, h3, h4⟩ := step_exact P L cls macLen ver hv x d hR (.send srv 22 body f) hok hq
+  simp only [step, expected] at h1 h2 h3 h4
+  intro o s'
+  have hd : (Pipeline.ops H P kl).decrypt d ⟨o.2, car⟩ srv
+      = ((recvStep P d (.record srv o.2)).1, some (some body)) := by
+    rw [ops_decrypt, h1, delivered_legacy cls h13]; rfl
+  have htyp : (⟨o.2, car⟩ : Session.Rec).typ = some 22 := protect_head_legacy P L cls h13 ver _ 22 body f
+  have hor : (s.srvCC || s.cliCC) = true := by
+    cases srv <;> simp only [ccOf, if_true, Bool.false_eq_true, if_false] at hcc <;> simp [hcc]
+  have hgate : (s.srvCC && srv && s.canDecrypt || s.cliCC && !srv && s.canDecrypt) = true := by
+    cases srv <;> simp only [ccOf, if_true, Bool.false_eq_true, if_false] at hcc <;> simp [hcc, hcan]
+  have heq : s' = Session.pushMeta m
+      (if (m && decide (some body ≠ some ([] : Bytes))) = true then
+        ({ s with dec := some (recvStep P d (.record srv o.2)).1 } : Session.St Dec).push ⟨some body, ⟨o.2, car⟩, srv, false⟩
+       else { s with dec := some (recvStep P d (.record srv o.2)).1 }) ⟨o.2, car⟩ srv := by
+    show Session.handleRecord _ m s ⟨o.2, car⟩ srv = _
+    unfold Session.handleRecord Session.handleRecordRaw
+    rw [htyp]
+    simp only [if_true]
+    unfold Session.handshakeRecord
+    rw [if_pos hor]
+    unfold Session.handshakeFinished
+    simp only [hdec]
+    rw [if_pos hgate, hd]
+    simp only
+    by_cases hb : (m && decide (some body ≠ some ([] : Bytes))) = true
+    · rw [if_pos hb, if_pos hb]; rfl
+    · rw [if_neg hb, if_neg hb]; rfl
+  have hpm : ∀ (t : Session.St Dec), (Session.pushMeta m t ⟨o.2, car⟩ srv).traffic.filter (·.isApp)
+      = t.traffic.filter (·.isApp) := by
+    intro t; cases m <;> simp [Session.pushMeta, Session.St.push, List.filter_append]
+  have hpc : ∀ (t : Session.St Dec), (Session.pushMeta m t ⟨o.2, car⟩ srv).core = t.core := fun t =>
+    Session.pushMeta_core m t _ srv
+  rw [heq]
+  by_cases hb : (m && decide (some body ≠ some ([] : Bytes))) = true
+  · rw [if_pos hb]
+    have hc := hpc (({ s with dec := some (recvStep P d (.record srv o.2)).1 } : Session.St Dec).push
+      ⟨some body, ⟨o.2, car⟩, srv, false⟩)
+    simp only [Session.St.core, Session.Core.mk.injEq] at hc
+    obtain ⟨c1, _, c3, c4, c5, c6, _⟩ := hc
+    refine ⟨?_, ?_, ⟨c1.trans hcan, ⟨v, c3.trans hver, hv13⟩, _, c6, h2⟩, c4, c5, h3, h4⟩
+    · rw [hpm]; simp [Session.St.push, List.filter_append]
+    · intro hm; rw [hm] at hb; simp at hb
+  · rw [if_neg hb]
+    have hc := hpc ({ s with dec := some (recvStep P d (.record srv o.2)).1 } : Session.St Dec)
+    simp only [Session.St.core, Session.Core.mk.injEq] at hc
+    obtain ⟨c1, _, c3, c4, c5, c6, _⟩ := hc
+    refine ⟨?_, ?_, ⟨c1.trans hcan, ⟨v, c3.trans hver, hv13⟩, _, c6, h2⟩, c4, c5, h3, h4⟩
+    · rw [hpm]
+    · intro hm; subst hm; rfl
+
+theorem Ready.of_eq {cls : CipherClass} {macLen : Nat} {x : Snd} {s s' : Session.St Dec} (h : Ready cls macLen x s)
+    (h1 : s'.dec = s.dec) (h2 : s'.ver = s.ver) (h3 : s'.canDecrypt = s.canDecrypt) : Ready cls macLen x s' := by
+  obtain ⟨a, ⟨v, b, c⟩, d, e, f⟩ := h
+  exact ⟨h3.trans a, ⟨v, h2.trans b, c⟩, d, h1.trans e, f⟩
+
 -- ------------------------------------------------------------------ TLS 1.3 handshake messages inside a record
 /-- a handshake message: `(msg_type, body)`; framed by `Spec.TlsHello.handshake` (RFC 8446 §4) -/
 abbrev HsMsg := UInt8 × Bytes
